@@ -1,7 +1,7 @@
 (* C08 — UPnP data types: lossless round trip and exact validation.  Property theorems only. *)
 From Coq Require Import List Bool NArith ZArith.
 From AUC Require Import Prelude.PyStr C08.TypesDef C08.Model C08.Spec C08.CodecInt C08.CodecDate
-  C08.Codec Gen.Types Gen.DateMatchers.
+  C08.Codec C08.Run C08.IsoIn Gen.Types Gen.DateMatchers.
 Import ListNotations.
 Local Open Scope N_scope.
 
@@ -68,6 +68,25 @@ Theorem C08_wire_setter :
 Proof. exact wire_setter. Qed.
 Print Assumptions C08_wire_setter.
 
+(* Input spellings.  For every row of the generated type table and EVERY text: if the specification's
+   own ISO 8601 grammar (Spec.spec_iso_in: written without the generated matcher table and without the
+   model's parse_date_time; YYYY-MM-DD for all dates 0001-01-01..9999-12-31 incl. leap days, hh:mm:ss,
+   "T" or one blank, no zone / Z / z / +hh:mm / -hh:mm / +hhmm / -hhmm up to 23:59) reads the text for
+   that row's type name as the value v, then the row's in-coercer (parse_date_time over the matcher
+   table generated from the current utils.py, including the colon fix-up) returns exactly v. *)
+Theorem C08_iso_spellings :
+  forall (float_of_str : pystr -> option fl) (lower_ext : N -> N) row text v,
+    In row type_table -> spec_iso_in (r_name row) text = Some v ->
+    apply_in float_of_str lower_ext (r_in row) text = Ok v.
+Proof. exact iso_spellings. Qed.
+Print Assumptions C08_iso_spellings.
+
+(* Clause 5 of the correspondence check (Run.c_iso_in, evaluated there on the implementation's
+   observation) holds of the model's observation, for every oracle and every input whatsoever. *)
+Theorem C08_iso_clause_holds : forall o i, c_iso_in i (model_run o i) = true.
+Proof. exact iso_clause_holds. Qed.
+Print Assumptions C08_iso_clause_holds.
+
 (* Non-vacuity: the table has 26 rows; the domains are inhabited at their boundaries. *)
 Example C08_table_size : length type_table = 26%nat.
 Proof. reflexivity. Qed.
@@ -79,4 +98,31 @@ Example C08_domain_inhabited :
   /\ value_in_domain TDate (VDate {| dy := 2023; dm := 2; dd := 29 |}) = false
   /\ parse_date_time [50;48;50;52;45;48;50;45;50;57;84;50;51;58;53;57;58;53;57;45;50;51;58;53;57]
      = Ok (VDateTime {| dy := 2024; dm := 2; dd := 29 |} {| th := 23; tmi := 59; ts := 59; ttz := Some (-1439)%Z |}).
+Proof. vm_compute. repeat split; reflexivity. Qed.
+
+(* the ISO 8601 grammar is inhabited at its boundaries (first/last day, leap days, every zone
+   notation, the largest offsets), says nothing just outside them, and its five type names are rows
+   of the generated table *)
+Example C08_iso_grammar_inhabited :
+  spec_iso_in [100;97;116;101;84;105;109;101;46;116;122] [48;48;48;49;45;48;49;45;48;49;84;48;48;58;48;48;58;48;48;90]
+    = Some (VDateTime {| dy := 1; dm := 1; dd := 1 |} {| th := 0; tmi := 0; ts := 0; ttz := Some 0%Z |})
+  /\ spec_iso_in [100;97;116;101;84;105;109;101;46;116;122] [57;57;57;57;45;49;50;45;51;49;84;50;51;58;53;57;58;53;57;43;50;51;58;53;57]
+    = Some (VDateTime {| dy := 9999; dm := 12; dd := 31 |} {| th := 23; tmi := 59; ts := 59; ttz := Some 1439%Z |})
+  /\ spec_iso_in [100;97;116;101;84;105;109;101] [57;57;57;57;45;49;50;45;51;49;84;50;51;58;53;57;58;53;57;45;50;51;53;57]
+    = Some (VDateTime {| dy := 9999; dm := 12; dd := 31 |} {| th := 23; tmi := 59; ts := 59; ttz := Some (-1439)%Z |})
+  /\ spec_iso_in [100;97;116;101;84;105;109;101] [48;48;48;49;45;48;49;45;48;49;32;48;48;58;48;48;58;48;48]
+    = Some (VDateTime {| dy := 1; dm := 1; dd := 1 |} {| th := 0; tmi := 0; ts := 0; ttz := None |})
+  /\ spec_iso_in [100;97;116;101;84;105;109;101;46;116;122] [50;48;48;48;45;48;50;45;50;57;84;49;50;58;48;48;58;48;48;122]
+    = Some (VDateTime {| dy := 2000; dm := 2; dd := 29 |} {| th := 12; tmi := 0; ts := 0; ttz := Some 0%Z |})
+  /\ spec_iso_in [116;105;109;101;46;116;122] [50;51;58;53;57;58;53;57;45;48;48;58;48;49]
+    = Some (VTime {| th := 23; tmi := 59; ts := 59; ttz := Some (-1)%Z |})
+  /\ spec_iso_in [116;105;109;101] [48;48;58;48;48;58;48;48] = Some (VTime {| th := 0; tmi := 0; ts := 0; ttz := None |})
+  /\ spec_iso_in [100;97;116;101] [50;48;50;52;45;48;50;45;50;57] = Some (VDate {| dy := 2024; dm := 2; dd := 29 |})
+  /\ spec_iso_in [100;97;116;101] [49;57;48;48;45;48;50;45;50;57] = None
+  /\ spec_iso_in [100;97;116;101] [48;48;48;48;45;48;49;45;48;49] = None
+  /\ spec_iso_in [100;97;116;101;84;105;109;101;46;116;122] [57;57;57;57;45;49;50;45;51;49;84;50;51;58;53;57;58;53;57;43;50;52;58;48;48] = None
+  /\ spec_iso_in [100;97;116;101;84;105;109;101;46;116;122] [50;48;50;48;45;48;49;45;48;50;84;48;51;58;48;52;58;48;53;45;48;48;58;48;48] = None
+  /\ spec_iso_in [100;97;116;101;84;105;109;101;46;116;122] [50;48;50;48;45;48;49;45;48;50;84;50;52;58;48;48;58;48;48;90] = None
+  /\ forallb (fun n => match find_row n type_table with Some _ => true | None => false end)
+       [[100;97;116;101]; [116;105;109;101]; [116;105;109;101;46;116;122]; [100;97;116;101;84;105;109;101]; [100;97;116;101;84;105;109;101;46;116;122]] = true.
 Proof. vm_compute. repeat split; reflexivity. Qed.
